@@ -19,10 +19,10 @@ const WorldMod = "wmod.test/w"
 
 // World is a scratch module holding dependency and source packages.
 type World struct {
-	Dir   string
-	Deps  map[string]Pkg // by path
-	Srcs  []*SrcPkg
-	Fset  *token.FileSet
+	Dir    string
+	Deps   map[string]Pkg // by path
+	Srcs   []*SrcPkg
+	Fset   *token.FileSet
 	Loaded map[string]*packages.Package // by import path, dependencies included
 }
 
